@@ -44,7 +44,12 @@ func (f *And) Call(s *slip.Scope, args slip.List, depth int) (result slip.Object
 	result = slip.True
 	d2 := depth + 1
 	for i := range args {
-		if result = slip.EvalArg(s, args, i, d2); slip.Primary(result) == nil {
+		result = slip.EvalArg(s, args, i, d2)
+		switch result.(type) {
+		case *slip.ReturnResult, *GoTo:
+			return // pass a return-from, return or go on to its target
+		}
+		if slip.Primary(result) == nil {
 			if i < len(args)-1 {
 				result = nil
 			}
